@@ -34,6 +34,7 @@ type Dialer struct {
 	DualStack bool
 }
 
+//go:norace
 func (d *Dialer) DialContext(ctx context.Context, network, address string) (Conn, error) {
 	return nil, errors.New("simnet: Dialer.DialContext is not simulated")
 }
@@ -43,7 +44,10 @@ type TCPAddr struct {
 	Port int
 }
 
+//go:norace
 func (a *TCPAddr) Network() string { return "tcp" }
+
+//go:norace
 func (a *TCPAddr) String() string {
 	if a == nil {
 		return "<nil>"
@@ -56,7 +60,10 @@ type UDPAddr struct {
 	Port int
 }
 
+//go:norace
 func (a *UDPAddr) Network() string { return "udp" }
+
+//go:norace
 func (a *UDPAddr) String() string {
 	if a == nil {
 		return "<nil>"
@@ -70,8 +77,13 @@ type opError struct {
 	timeout bool
 }
 
-func (e *opError) Error() string   { return e.op + ": " + e.msg }
-func (e *opError) Timeout() bool   { return e.timeout }
+//go:norace
+func (e *opError) Error() string { return e.op + ": " + e.msg }
+
+//go:norace
+func (e *opError) Timeout() bool { return e.timeout }
+
+//go:norace
 func (e *opError) Temporary() bool { return e.timeout }
 
 var (
@@ -82,6 +94,7 @@ var (
 	errTimeout = &opError{"read", "i/o timeout", true}
 )
 
+//go:norace
 func splitHostPort(addr string) (string, int, error) {
 	i := strings.LastIndex(addr, ":")
 	if i < 0 {
@@ -101,6 +114,7 @@ func splitHostPort(addr string) (string, int, error) {
 	return host, p, nil
 }
 
+//go:norace
 func ResolveTCPAddr(network, addr string) (*TCPAddr, error) {
 	h, p, err := splitHostPort(addr)
 	if err != nil {
@@ -109,6 +123,7 @@ func ResolveTCPAddr(network, addr string) (*TCPAddr, error) {
 	return &TCPAddr{h, p}, nil
 }
 
+//go:norace
 func ResolveUDPAddr(network, addr string) (*UDPAddr, error) {
 	h, p, err := splitHostPort(addr)
 	if err != nil {
@@ -128,6 +143,7 @@ type Config struct {
 	RefuseDelay     time.Duration
 }
 
+//go:norace
 func DefaultConfig() Config {
 	return Config{SockBuf: 64 << 10, MaxReadChunk: 0, ChunkP: 0.3, MaxGrace: 2, EOFWithData: 0.2, RefuseDelay: time.Millisecond}
 }
@@ -146,9 +162,10 @@ type Net struct {
 	Conns     []*TCPConn
 }
 
+//go:norace
 func NewNet(cfg Config) *Net {
 	return &Net{Cfg: cfg, listeners: map[string]*TCPListener{}, udp: map[string]*UDPConn{}, blackhole: map[string]bool{},
-		cond: simrt.NewCond(), nextPort: 40000, Count: map[string]int{}}
+		cond: simrt.NewDevCond(), nextPort: 40000, Count: map[string]int{}}
 }
 
 var (
@@ -156,16 +173,21 @@ var (
 	cur   = NewNet(DefaultConfig())
 )
 
-func Use(n *Net) { curMu.Lock(); cur = n; curMu.Unlock() }
-func Cur() *Net  { curMu.Lock(); defer curMu.Unlock(); return cur }
+//go:norace
+func Use(n *Net) { lk(&curMu); cur = n; ul(&curMu) }
 
+//go:norace
+func Cur() *Net { lk(&curMu); defer ul(&curMu); return cur }
+
+//go:norace
 func (n *Net) count(k string) {
-	n.mu.Lock()
+	lk(&n.mu)
 	n.Count[k]++
-	n.mu.Unlock()
+	ul(&n.mu)
 	simrt.Probe("net." + k)
 }
 
+//go:norace
 func choices() *simrt.Choices {
 	if s := simrt.Active(); s != nil {
 		return s.Sched
@@ -174,14 +196,16 @@ func choices() *simrt.Choices {
 }
 
 // SetBlackhole makes dials to addr hang (SYNs silently dropped) until cleared.
+//
+//go:norace
 func (n *Net) SetBlackhole(addr string, on bool) {
-	n.mu.Lock()
+	lk(&n.mu)
 	if on {
 		n.blackhole[addr] = true
 	} else {
 		delete(n.blackhole, addr)
 	}
-	n.mu.Unlock()
+	ul(&n.mu)
 	n.cond.Broadcast()
 }
 
@@ -194,8 +218,10 @@ type TCPListener struct {
 	closed bool
 }
 
+//go:norace
 func key(host string, port int) string { return host + ":" + strconv.Itoa(port) }
 
+//go:norace
 func (n *Net) lookup(a *TCPAddr) *TCPListener {
 	if l, ok := n.listeners[key(a.Host, a.Port)]; ok {
 		return l
@@ -209,14 +235,16 @@ func (n *Net) lookup(a *TCPAddr) *TCPListener {
 	return nil
 }
 
+//go:norace
 func ListenTCP(network string, laddr *TCPAddr) (*TCPListener, error) { return Cur().ListenTCP(laddr) }
 
+//go:norace
 func (n *Net) ListenTCP(laddr *TCPAddr) (*TCPListener, error) {
 	if laddr == nil {
 		return nil, &opError{"listen", "missing address", false}
 	}
-	n.mu.Lock()
-	defer n.mu.Unlock()
+	lk(&n.mu)
+	defer ul(&n.mu)
 	a := *laddr
 	if a.Port == 0 {
 		n.nextPort++
@@ -232,6 +260,8 @@ func (n *Net) ListenTCP(laddr *TCPAddr) (*TCPListener, error) {
 }
 
 // Listen is net.Listen for "tcp".
+//
+//go:norace
 func Listen(network, addr string) (Listener, error) {
 	a, err := ResolveTCPAddr(network, addr)
 	if err != nil {
@@ -240,13 +270,15 @@ func Listen(network, addr string) (Listener, error) {
 	return ListenTCP(network, a)
 }
 
+//go:norace
 func (l *TCPListener) Addr() Addr { return l.addr }
 
+//go:norace
 func (l *TCPListener) AcceptTCP() (*TCPConn, error) {
 	var c *TCPConn
 	l.n.cond.Wait(func() bool {
-		l.n.mu.Lock()
-		defer l.n.mu.Unlock()
+		lk(&l.n.mu)
+		defer ul(&l.n.mu)
 		if l.closed {
 			return true
 		}
@@ -263,6 +295,7 @@ func (l *TCPListener) AcceptTCP() (*TCPConn, error) {
 	return c, nil
 }
 
+//go:norace
 func (l *TCPListener) Accept() (Conn, error) {
 	c, err := l.AcceptTCP()
 	if err != nil {
@@ -271,17 +304,18 @@ func (l *TCPListener) Accept() (Conn, error) {
 	return c, nil
 }
 
+//go:norace
 func (l *TCPListener) Close() error {
-	l.n.mu.Lock()
+	lk(&l.n.mu)
 	if l.closed {
-		l.n.mu.Unlock()
+		ul(&l.n.mu)
 		return errClosed
 	}
 	l.closed = true
 	delete(l.n.listeners, key(l.addr.Host, l.addr.Port))
 	pending := l.queue
 	l.queue = nil
-	l.n.mu.Unlock()
+	ul(&l.n.mu)
 	for _, c := range pending {
 		c.Reset() // never accepted: the dialer sees a reset
 	}
@@ -310,28 +344,30 @@ type TCPConn struct {
 	ServerSide   bool
 }
 
+//go:norace
 func DialTCP(network string, laddr, raddr *TCPAddr) (*TCPConn, error) {
 	return Cur().DialTCP(laddr, raddr)
 }
 
+//go:norace
 func (n *Net) DialTCP(laddr, raddr *TCPAddr) (*TCPConn, error) {
 	if raddr == nil {
 		return nil, &opError{"dial", "missing address", false}
 	}
 	k := key(raddr.Host, raddr.Port)
 	// a black-holed address: the dial hangs until the fault heals
-	n.mu.Lock()
+	lk(&n.mu)
 	bh := n.blackhole[k]
-	n.mu.Unlock()
+	ul(&n.mu)
 	if bh {
 		n.count("dial_blackholed")
-		n.cond.Wait(func() bool { n.mu.Lock(); defer n.mu.Unlock(); return !n.blackhole[k] }, time.Time{})
+		n.cond.Wait(func() bool { lk(&n.mu); defer ul(&n.mu); return !n.blackhole[k] }, time.Time{})
 	}
-	n.mu.Lock()
+	lk(&n.mu)
 	l := n.lookup(raddr)
 	if l == nil || l.closed {
 		d := n.Cfg.RefuseDelay
-		n.mu.Unlock()
+		ul(&n.mu)
 		n.count("dial_refused")
 		if d > 0 {
 			simrt.Sleep(d)
@@ -345,33 +381,41 @@ func (n *Net) DialTCP(laddr, raddr *TCPAddr) (*TCPConn, error) {
 	if laddr != nil && laddr.Host != "" && laddr.Host != "0.0.0.0" {
 		cl.Host = laddr.Host
 	}
-	shared := simrt.NewCond()
+	shared := simrt.NewDevCond()
 	mu := &sync.Mutex{}
 	grace := 0
 	if c := choices(); c != nil && n.Cfg.MaxGrace > 0 {
-		n.mu.Unlock()
+		ul(&n.mu)
 		grace = c.Range(0, n.Cfg.MaxGrace)
-		n.mu.Lock()
+		lk(&n.mu)
 	}
 	a := &TCPConn{n: n, ID: id, local: cl, remote: raddr, cond: shared, mu: mu, inCap: n.Cfg.SockBuf, grace: grace}
 	b := &TCPConn{n: n, ID: id, local: raddr, remote: cl, cond: shared, mu: mu, inCap: n.Cfg.SockBuf, grace: grace, ServerSide: true}
 	a.peer, b.peer = b, a
 	l.queue = append(l.queue, b)
 	n.Conns = append(n.Conns, a)
-	n.mu.Unlock()
+	ul(&n.mu)
 	n.count("dial_ok")
 	n.cond.Broadcast()
 	return a, nil
 }
 
-func (c *TCPConn) LocalAddr() Addr  { return c.local }
+//go:norace
+func (c *TCPConn) LocalAddr() Addr { return c.local }
+
+//go:norace
 func (c *TCPConn) RemoteAddr() Addr { return c.remote }
 
-func (c *TCPConn) SetDeadline(t time.Time) error      { return c.SetReadDeadline(t) }
+//go:norace
+func (c *TCPConn) SetDeadline(t time.Time) error { return c.SetReadDeadline(t) }
+
+//go:norace
 func (c *TCPConn) SetWriteDeadline(t time.Time) error { return nil }
+
+//go:norace
 func (c *TCPConn) SetReadDeadline(t time.Time) error {
-	c.mu.Lock()
-	defer c.mu.Unlock()
+	lk(c.mu)
+	defer ul(c.mu)
 	if c.closed {
 		return errClosed
 	}
@@ -381,11 +425,13 @@ func (c *TCPConn) SetReadDeadline(t time.Time) error {
 
 // Read returns what the network decided to deliver: possibly less than what is
 // available (segmentation), possibly together with io.EOF.
+//
+//go:norace
 func (c *TCPConn) Read(p []byte) (int, error) {
 	var err error
 	ready := func() bool {
-		c.mu.Lock()
-		defer c.mu.Unlock()
+		lk(c.mu)
+		defer ul(c.mu)
 		switch {
 		case c.closed:
 			err = errClosed
@@ -400,9 +446,9 @@ func (c *TCPConn) Read(p []byte) (int, error) {
 		}
 		return true
 	}
-	c.mu.Lock()
+	lk(c.mu)
 	dl := c.rdl
-	c.mu.Unlock()
+	ul(c.mu)
 	if !c.cond.Wait(ready, dl) {
 		c.n.count("read_deadline")
 		return 0, errTimeout
@@ -413,13 +459,13 @@ func (c *TCPConn) Read(p []byte) (int, error) {
 	if len(p) == 0 {
 		return 0, nil
 	}
-	c.mu.Lock()
+	lk(c.mu)
 	n := len(c.in)
 	if n > len(p) {
 		n = len(p)
 	}
 	cfg := c.n.Cfg
-	c.mu.Unlock()
+	ul(c.mu)
 	if cfg.MaxReadChunk > 0 && n > cfg.MaxReadChunk {
 		n = cfg.MaxReadChunk
 	}
@@ -428,7 +474,7 @@ func (c *TCPConn) Read(p []byte) (int, error) {
 		n = 1 + ch.Intn(n-1)
 		c.n.count("read_cut_short")
 	}
-	c.mu.Lock()
+	lk(c.mu)
 	copy(p, c.in[:n])
 	c.in = c.in[n:]
 	if len(c.in) == 0 {
@@ -436,7 +482,7 @@ func (c *TCPConn) Read(p []byte) (int, error) {
 	}
 	c.BytesRead += int64(n)
 	last := len(c.in) == 0 && c.finRecv
-	c.mu.Unlock()
+	ul(c.mu)
 	c.cond.Broadcast() // room for a blocked writer
 	if last && ch != nil && cfg.EOFWithData > 0 && ch.Bool(cfg.EOFWithData) {
 		c.n.count("read_data_with_eof")
@@ -450,17 +496,19 @@ func (c *TCPConn) Read(p []byte) (int, error) {
 }
 
 // Write blocks while the peer's receive queue is full.
+//
+//go:norace
 func (c *TCPConn) Write(p []byte) (int, error) {
 	written := 0
-	c.mu.Lock()
+	lk(c.mu)
 	c.Writes++
-	c.mu.Unlock()
+	ul(c.mu)
 	for {
 		var err error
 		var done bool
 		ok := func() bool {
-			c.mu.Lock()
-			defer c.mu.Unlock()
+			lk(c.mu)
+			defer ul(c.mu)
 			pe := c.peer
 			switch {
 			case c.closed:
@@ -511,10 +559,12 @@ func (c *TCPConn) Write(p []byte) (int, error) {
 }
 
 // Close is an orderly close: the peer reads what is queued and then EOF.
+//
+//go:norace
 func (c *TCPConn) Close() error {
-	c.mu.Lock()
+	lk(c.mu)
 	if c.closed {
-		c.mu.Unlock()
+		ul(c.mu)
 		return errClosed
 	}
 	c.closed = true
@@ -525,40 +575,51 @@ func (c *TCPConn) Close() error {
 		// closing with unread data makes the kernel answer with RST
 		c.peer.rst = true
 	}
-	c.mu.Unlock()
+	ul(c.mu)
 	c.cond.Broadcast()
 	return nil
 }
 
 // CloseWrite half-closes.
+//
+//go:norace
 func (c *TCPConn) CloseWrite() error {
-	c.mu.Lock()
+	lk(c.mu)
 	c.peer.finRecv = true
-	c.mu.Unlock()
+	ul(c.mu)
 	c.cond.Broadcast()
 	return nil
 }
 
 // Reset aborts the connection: both directions fail from now on.
+//
+//go:norace
 func (c *TCPConn) Reset() {
-	c.mu.Lock()
+	lk(c.mu)
 	c.rst = true
 	c.peer.rst = true
 	c.peer.finRecv = true
-	c.mu.Unlock()
+	ul(c.mu)
 	c.n.count("conn_reset")
 	c.cond.Broadcast()
 }
 
 // Buffered returns the number of bytes queued towards this end.
-func (c *TCPConn) Buffered() int { c.mu.Lock(); defer c.mu.Unlock(); return len(c.in) }
+//
+//go:norace
+func (c *TCPConn) Buffered() int { lk(c.mu); defer ul(c.mu); return len(c.in) }
 
 // SetInCap changes the receive queue capacity of this end.
-func (c *TCPConn) SetInCap(n int) { c.mu.Lock(); c.inCap = n; c.mu.Unlock(); c.cond.Broadcast() }
+//
+//go:norace
+func (c *TCPConn) SetInCap(n int) { lk(c.mu); c.inCap = n; ul(c.mu); c.cond.Broadcast() }
 
 // Peer returns the other end (harness use).
+//
+//go:norace
 func (c *TCPConn) Peer() *TCPConn { return c.peer }
 
+//go:norace
 func (c *TCPConn) String() string { return fmt.Sprintf("conn%d(%v->%v)", c.ID, c.local, c.remote) }
 
 // ---- UDP ----
@@ -575,14 +636,16 @@ type UDPConn struct {
 	closed bool
 }
 
+//go:norace
 func ListenUDP(network string, laddr *UDPAddr) (*UDPConn, error) { return Cur().ListenUDP(laddr) }
 
+//go:norace
 func (n *Net) ListenUDP(laddr *UDPAddr) (*UDPConn, error) {
 	if laddr == nil {
 		return nil, &opError{"listen", "missing address", false}
 	}
-	n.mu.Lock()
-	defer n.mu.Unlock()
+	lk(&n.mu)
+	defer ul(&n.mu)
 	k := key(laddr.Host, laddr.Port)
 	if _, ok := n.udp[k]; ok {
 		return nil, &opError{"listen", "address already in use", false}
@@ -593,31 +656,34 @@ func (n *Net) ListenUDP(laddr *UDPAddr) (*UDPConn, error) {
 }
 
 // SendUDP delivers one datagram to the socket bound to addr (harness use).
+//
+//go:norace
 func (n *Net) SendUDP(addr string, payload []byte) bool {
 	h, p, err := splitHostPort(addr)
 	if err != nil {
 		return false
 	}
-	n.mu.Lock()
+	lk(&n.mu)
 	u := n.udp[key(h, p)]
 	if u == nil {
 		u = n.udp[key("0.0.0.0", p)]
 	}
 	if u == nil || u.closed {
-		n.mu.Unlock()
+		ul(&n.mu)
 		return false
 	}
 	u.q = append(u.q, datagram{append([]byte(nil), payload...), &UDPAddr{"10.0.0.9", 5555}})
-	n.mu.Unlock()
+	ul(&n.mu)
 	n.cond.Broadcast()
 	return true
 }
 
+//go:norace
 func (u *UDPConn) ReadFrom(b []byte) (int, Addr, error) {
 	var d *datagram
 	u.n.cond.Wait(func() bool {
-		u.n.mu.Lock()
-		defer u.n.mu.Unlock()
+		lk(&u.n.mu)
+		defer ul(&u.n.mu)
 		if u.closed {
 			return true
 		}
@@ -636,17 +702,28 @@ func (u *UDPConn) ReadFrom(b []byte) (int, Addr, error) {
 	return n, d.from, nil
 }
 
+//go:norace
 func (u *UDPConn) Close() error {
-	u.n.mu.Lock()
+	lk(&u.n.mu)
 	if u.closed {
-		u.n.mu.Unlock()
+		ul(&u.n.mu)
 		return errClosed
 	}
 	u.closed = true
 	delete(u.n.udp, key(u.addr.Host, u.addr.Port))
-	u.n.mu.Unlock()
+	ul(&u.n.mu)
 	u.n.cond.Broadcast()
 	return nil
 }
 
+//go:norace
 func (u *UDPConn) LocalAddr() Addr { return u.addr }
+
+// lk/ul bracket the device's own critical sections; in a race build they are invisible to the race detector (simrt.SyncOff),
+// like the kernel's locks would be: a device must not order the tasks that use it.
+//
+//go:norace
+func lk(m *sync.Mutex) { simrt.SyncOff(); m.Lock() }
+
+//go:norace
+func ul(m *sync.Mutex) { m.Unlock(); simrt.SyncOn() }
